@@ -22,6 +22,8 @@ import KafkaVerif.Model.Codec
 import KafkaVerif.Gen.DecoderCfg
 import KafkaVerif.Lemmas.RecordScanSafe
 import KafkaVerif.Model.CodecRecords
+import KafkaVerif.Lemmas.RecordScanExact
+import KafkaVerif.Lemmas.CodecAccount
 import KafkaVerif.Gen.RecordCfg
 
 namespace KV.C20
@@ -326,6 +328,49 @@ theorem readResponse_total_source_with_records (crcI crcC : Bytes → Nat) (dcmp
     (flex : Bool) (t : Ty) (stream : Bytes) :
     Safe (readResponse (withRecords Gen.decoderCfg Gen.recordCfg crcI crcC dcmp) flex t stream) :=
   readResponse_total_with_records _ source_decoder_is_bounded _ source_record_guards crcI crcC dcmp flex t stream
+
+/-! ### "… the outcome is an error or a message, nothing else": no over-read either -/
+
+theorem recsHandler_acc (rc : KV.RecordScan.RCfg) (hacc : rc.accountAfterDiscard = true) (crcI crcC : Bytes → Nat)
+    (dcmp : Int → Bytes → Option Bytes) : Acc (recsHandler rc crcI crcC dcmp) := by
+  intro d v d' h
+  unfold recsHandler at h
+  split at h
+  · rename_i newRemain s heq
+    obtain ⟨n, hn, hi, hr, _⟩ := KV.RecordScan.readSet_exact rc hacc crcI crcC dcmp d.inp d.remain newRemain s heq
+    split at h
+    · split at h <;> simp at h
+    · simp only [Res.ok.injEq] at h
+      rw [← h.2]
+      exact ⟨n, hn, hi, by simp only []; omega⟩
+  · simp at h
+  · simp at h
+  · simp at h
+
+/-- **Exactly one frame leaves the connection** whenever ReadResponse returns a message — for every byte stream
+and every schema, record sets included (stumps after the last batch, batches that fail after others were decoded,
+unknown magic bytes …): the bytes consumed are the size prefix and precisely the bytes it announces.  With
+`readResponse_total_source_with_records`: error or message, and a message never eats into the next frame. -/
+theorem readResponse_consumes_frame_with_records (cfg : Cfg) (rc : KV.RecordScan.RCfg)
+    (hacc : rc.accountAfterDiscard = true) (crcI crcC : Bytes → Nat) (dcmp : Int → Bytes → Option Bytes)
+    (flex : Bool) (t : Ty) (stream : Bytes) (x : Int × Val) (d' : Dec)
+    (h : readResponse (withRecords cfg rc crcI crcC dcmp) flex t stream = .ok x d') :
+    ∃ size : Nat, 4 + size ≤ stream.length ∧ toS 32 (fromBE (stream.take 4)) = size ∧
+      d'.inp = stream.drop (4 + size) ∧ d'.remain = 0 :=
+  readResponse_consumes_frame _ (fun hh heq => by
+    have : hh = recsHandler rc crcI crcC dcmp := by
+      simp only [withRecords] at heq
+      exact (Option.some.inj heq).symm
+    subst this
+    exact recsHandler_acc rc hacc crcI crcC dcmp) flex t stream x d' h
+
+/-- … for the code as it is now (guard `accountAfterDiscard` extracted from record.go) -/
+theorem readResponse_consumes_frame_source (crcI crcC : Bytes → Nat) (dcmp : Int → Bytes → Option Bytes)
+    (flex : Bool) (t : Ty) (stream : Bytes) (x : Int × Val) (d' : Dec)
+    (h : readResponse (withRecords Gen.decoderCfg Gen.recordCfg crcI crcC dcmp) flex t stream = .ok x d') :
+    ∃ size : Nat, 4 + size ≤ stream.length ∧ toS 32 (fromBE (stream.take 4)) = size ∧
+      d'.inp = stream.drop (4 + size) ∧ d'.remain = 0 :=
+  readResponse_consumes_frame_with_records _ _ (by decide) crcI crcC dcmp flex t stream x d' h
 
 /-! ### each guard is necessary: the model without it fails on a concrete input (CRC function constantly 0) -/
 
